@@ -482,6 +482,11 @@ class Ctx:
         cov["known_findings_reproduced"] = self.known_hits
         if self.notes:
             cov["notes"] = [n[-1500:] for n in self.notes][:10]
+        if cov["obligations"] == 0:
+            # nothing was attempted (e.g. the check died before the proof step): do not
+            # present empty proof keys; the generic counts then have to carry the file
+            for k in ("obligations", "discharged"):
+                cov.pop(k)
         if self.level == "translation_validation":
             cov.setdefault("programs", cov["evaluations"])
         if self.level == "other":
